@@ -516,3 +516,7 @@ class SpecFn:
         return k >= 2
 
     raw = at
+
+
+def use_lemma(name, cond):
+    pass
